@@ -342,6 +342,8 @@ pub fn gen_stream(rng: &mut Rng, p: &Pool, cfg: &GenCfg, target_len: usize) -> V
         let text = case_variant(rng, w, cfg.upper_pct);
         let lower = text.to_lowercase();
         // display form vs normalised form (ASR tokens): text() may carry more than case
+        // a token normalised to nothing (noise markers such as [breath]) keeps its display text
+        let lower = if cfg.display_pct > 0 && rng.chance(cfg.display_pct, 600) { rng.word(&["", " ", "-"]).to_string() } else { lower };
         let text = if cfg.display_pct > 0 && rng.chance(cfg.display_pct, 100) {
             if rng.chance(1, 8) {
                 // a very long display form (e.g. markup kept on the token)
